@@ -55,6 +55,7 @@ func c09Rules(p *core.Prog, r *core.Run) {
 
 	// --- EXIT
 	keyLoopExits(p, r, m, "C09.EXIT")
+	c09Keys(p, r, m, "C09.KEYS")
 
 	// --- LEAVE
 	for i, st := range m.accept {
@@ -231,6 +232,37 @@ func loopCarried(e *core.Expr, header *ssa.BasicBlock) bool {
 }
 
 // keyLoopExits classifies every edge that leaves the candidate-key loop.
+// c09Keys: every key the caller configures is a candidate: the stores to
+// Conn.keys add the option's whole argument, unconditionally and unfiltered
+// (dropping "duplicates" by config id would make acceptance depend on the
+// order of the key list).
+func c09Keys(p *core.Prog, r *core.Run, m *echModel, rule string) {
+	n := 0
+	for _, st := range fieldStores(p, p.PkgFuncs(Ech), m.fConn["keys"]) {
+		n++
+		v := p.X(st.Val)
+		whole := false
+		switch {
+		case v.Op == "param" || v.Op == "cell" || v.Op == "phi":
+			whole = v.Op == "param"
+		case v.Op == "call" && v.Name == "append" && len(v.Args) == 2:
+			// append(c.keys, keys...) with keys the enclosing option's parameter
+			base, add := v.Args[0], v.Args[1]
+			whole = base.Op == "field" && base.Obj == m.fConn["keys"] && add.Op == "param"
+		case v.Op == "call" && (v.Name == "slices.Clone" || v.Name == "slices.Concat"):
+			whole = true
+			for _, a := range v.Args {
+				if !(a.Op == "param" || a.Op == "field" && a.Obj == m.fConn["keys"]) {
+					whole = false
+				}
+			}
+		}
+		uncond := len(p.Facts(st.Block())) == 0
+		r.Check(rule, fmt.Sprintf("keys:store#%d", n), whole && uncond, p.InstrPos(st), "Conn.keys receives the caller's key list whole (%v) and unconditionally (%v): %s", whole, uncond, short(v))
+	}
+	r.Check(rule, "keys:stores", n >= 1, p.Pos(m.newConn.Pos()), "stores to Conn.keys examined (%d)", n)
+}
+
 func keyLoopExits(p *core.Prog, r *core.Run, m *echModel, rule string) {
 	openV := m.open.Instr.(ssa.Value)
 	recvV := m.open.Instr.Common().Args[0]
